@@ -100,23 +100,31 @@ def roundtrip_hostile(ex: int, ey: int, nal: int, nx: int, maxx: int, x0: int, x
 PLAIN = ('f1', 'b1', 'l1', 'p1', 'r1', 'd1')
 NASTY = ('F /1', 'b&b=1', 'fl#?', 'p%2Fc', 'r+m ä', 'b/d;1')
 STYLES = (PLAIN, NASTY)
-ROOTS = (DEFAULT_ROOT, 'my root', 'r?&#=', 'ä%+')
+ROOTS = (DEFAULT_ROOT, 'my root', 'r?&#=', 'ä%+', 'a/b', 'http://hospital.example/locations', '/')
 
 
-def roundtrip_presence(p0: bool, p1: bool, p2: bool, p3: bool, p4: bool, p5: bool, root: int, style: int) -> str:
+def roundtrip_presence(p0: bool, p1: bool, p2: bool, p3: bool, p4: bool, p5: bool, root: int, style: int, empty: int = 6) -> str:
     """
-    Every combination of present / absent elements, 4 roots (incl. reserved characters, no '/'), plain or nasty values.
-    pre: 0 <= root < 4
+    Every combination of present / absent elements, 7 roots (reserved characters, also '/'), plain or nasty values; optionally
+    one element given as the EMPTY string (which the API documents as 'not specified', like None).
+    pre: 0 <= root < 7
     pre: 0 <= style < 2
+    pre: 0 <= empty <= 6
     post: __return__ == 'ok'
     """
     present = [bool(p) for p in (p0, p1, p2, p3, p4, p5)]
-    root, style = pick(root, ROOTS), pick(style, STYLES)
+    root, style, empty = pick(root, ROOTS), pick(style, STYLES), pick(empty, tuple(range(7)))
     with untraced():
         orc = Oracle()
         try:
-            loc = SdcLocation(root=root, **{el: style[i] for i, el in enumerate(ELEMENTS) if present[i]})
+            kw = {el: style[i] for i, el in enumerate(ELEMENTS) if present[i]}
+            if empty < 6:
+                kw[ELEMENTS[empty]] = ''
+            loc = SdcLocation(root=root, **kw)
             _roundtrip(orc, loc)
+            back = SdcLocation.from_scope_string(loc.scope_string)
+            orc.check(back == loc and hash(back) == hash(loc), 'roundtrip:result-not-equal-to-original')
+            orc.check(back in loc and loc in back, 'roundtrip:result-and-original-not-inside-each-other')
         except Exception as exc:  # noqa: BLE001
             return exc_result(orc, exc, 'roundtrip')
         return orc.result()
